@@ -338,6 +338,10 @@ def r39c(F):
                         for b2, t2 in fn.calls():
                             if b2 in reg and cfg.dominates(fn, te, b2) and ("with_pos" in callee(t2) or callee(t2).endswith("Vec::push")) and \
                                     any(("call", callee(t), b) in o.at(a, b2) for a in t2["args"]):
+                                # `result.with_pos(node.pos())` re-anchors the error itself
+                                if callee(t2) == "ucglib::ast::Shape::with_pos" and len(t2["args"]) > 1 and \
+                                        any(c.endswith("::pos") for c in calls_in(o.at(t2["args"][1], b2))):
+                                    continue
                                 escapes = True
                         verdicts.append(not escapes)
                         if not escapes and not aggs:
@@ -347,8 +351,11 @@ def r39c(F):
                     if not all(verdicts):
                         how = None
                 elif how is None:
-                    # the result is returned / recorded as it is
-                    how = None
+                    # no match on the result: re-anchored as a whole with with_pos(node position)?
+                    for b2, t2 in fn.calls():
+                        if callee(t2) == "ucglib::ast::Shape::with_pos" and t2["args"] and op_local(t2["args"][0]) in cps and len(t2["args"]) > 1 and \
+                                any(c.endswith("::pos") for c in calls_in(o.at(t2["args"][1], b2))):
+                            how = "the result is re-anchored with with_pos at a position of the node"
             n += 1
             short = name.split("::")[-1] if not name.startswith("<") else name.split(" as ")[0].split("::")[-1] + "::" + name.split("::")[-1]
             r.inst("%s:narrow#%d" % (short, k), fn.where(b), how is not None, how or
